@@ -47,7 +47,15 @@ def correspondence(spec, pid, tier, seed, replay_cases=None):
     cases = [c for c in cases if c.fid in fids]
     if replay_cases:
         cases = replay_cases + cases
-    outs = vlib.run_model(spec.GROUP, [c.model_line() for c in cases])
+    gof = getattr(spec, "GROUP_OF_FID", {})
+    by_group = {}
+    for idx, c in enumerate(cases):
+        by_group.setdefault(gof.get(int(c.fid), spec.GROUP), []).append(idx)
+    outs = [None] * len(cases)
+    for g, idxs in by_group.items():
+        res = vlib.run_model(g, [cases[i].model_line() for i in idxs])
+        for i, r in zip(idxs, res):
+            outs[i] = r
     return cases, outs, notes
 
 
